@@ -510,7 +510,11 @@ func (g *G) rangeElementType() cadence.Type {
 }
 
 func (g *G) hashableType() cadence.Type {
-	switch g.weighted(10, 1, 2) {
+	switch g.weighted(10, 1, 2, 3) {
+	case 3:
+		// abstract key types: keys of different concrete types / path domains in one dictionary
+		return pick(g, []cadence.PrimitiveType{cadence.PathType, cadence.CapabilityPathType, cadence.PathType, cadence.SignedIntegerType,
+			cadence.IntegerType, cadence.SignedNumberType, cadence.NumberType})
 	case 1:
 		return cadence.HashableStructType
 	case 2:
